@@ -1089,5 +1089,5 @@ fn nontrivial(op: &str, args: &[&str]) -> bool {
 
 fn main() {
     harness_main(Spec { prop: "C07", gen, exec, nontrivial, hang_secs: 60,
-        rule: "every shape rank<=4 len<=3 (+ 19 shapes with zero-length axes incl. [0,0],[0,3,0],[0,1,0,2]; unit-rich, rank 5): reshape to EVERY ordered factorization of the count into <=4 (5) axes and back (empty arrays: to every kind of empty / non-empty target), non-fitting counts, resize smaller/larger/empty, cycle_take, atleast 0..4, expand_dims at every single position and every ordered pair in -(nd+2)..nd+2, squeeze none / every axis +- / every pair, same step twice, expand-then-squeeze in both spellings, errors passed along a chain; seeded random chains (<=8 steps) that end in the original shape; create with ndmin 0..5. Sizes: big_shapes() + lengths around 256/1024/4096 (ravel, sampled factorizations and back, atleast, expand/squeeze at every position, random chains, create); resize from 28 (thorough ~90) source lengths (dividing and not dividing 256/1024/4096) to targets just above 256/512/1024/2048/4096 of rank 1-3, cycle_take up to 5000, shrinking from big sources. EVERY chain runs through the Result receiver (compared with the model) and through the plain-receiver twin of every step (compared after every step), then on the u8, i8, u64>2^53, f64(-0.0), f32(-0.0), f64 special values (bit-wise), bool, String, char images on both receivers. Tag arrays. PART 2: expand_dims with 3..5 axes (every 3-subset of the result positions in every order, sampled 4/5-subsets, mixed spellings) alone and followed by the squeeze of those positions (unsorted, mixed spellings); squeeze lists of 3..5 axes; create with ndmin 0..9,12,16 on ranks 0..6; ranks 6..8; every length 1..300 (reshape, resize, cycle_take, expand/squeeze); huge: resize from 14 small source lengths to targets of 20 000..140 000 elements (above and at 65 536) and reshape / ravel / expand / squeeze of huge_shapes() through the model; resize / cycle_take FROM sources of 4 100..140 000 elements (`hchain`) against the harness-native reference out[i] = in[i mod len], which is validated against the model on every smaller resize / cycle_take / reshape / ravel chain of the run (`audit` demands >= 1000 validations); hidden state: `aba` = two chains on a fresh thread A B A, then on another fresh thread B A B, over shape pairs colliding under weak polynomial hashes (multipliers 31,33,37,131,257), equal counts, and a refused call followed by a valid one; for a third of the chain lines the previous line is re-executed and must repeat its answer. non-trivial = >=2 elements and a non-empty chain" });
+        rule: "every shape rank<=4 len<=3 (+ 19 shapes with zero-length axes incl. [0,0],[0,3,0],[0,1,0,2]; unit-rich, rank 5): reshape to EVERY ordered factorization of the count into <=4 (5) axes and back (empty arrays: to every kind of empty / non-empty target), non-fitting counts, resize smaller/larger/empty, cycle_take, atleast 0..4, expand_dims at every single position and every ordered pair in -(nd+2)..nd+2, squeeze none / every axis +- / every pair, same step twice, expand-then-squeeze in both spellings, errors passed along a chain; seeded random chains (<=8 steps) that end in the original shape; create with ndmin 0..5. Sizes: big_shapes() + lengths around 256/1024/4096 (ravel, sampled factorizations and back, atleast, expand/squeeze at every position, random chains, create); resize from 28 (thorough ~90) source lengths (dividing and not dividing 256/1024/4096) to targets just above 256/512/1024/2048/4096 of rank 1-3, cycle_take up to 5000, shrinking from big sources. EVERY chain runs through the Result receiver (compared with the model) and through the plain-receiver twin of every step (compared after every step), then on the u8, i8, u64>2^53, f64(-0.0), f32(-0.0), f64 special values (bit-wise), bool, String, char images on both receivers. Tag arrays. PART 2: expand_dims with 3..5 axes (every 3-subset of the result positions in every order, sampled 4/5-subsets, mixed spellings) alone and followed by the squeeze of those positions (unsorted, mixed spellings); squeeze lists of 3..5 axes; create with ndmin 0..9,12,16 on ranks 0..6; ranks 6..8; every length 1..300 (reshape, resize, cycle_take, expand/squeeze); huge: resize from 14 small source lengths to targets of 20 000..140 000 elements (above and at 65 536) and reshape / ravel / expand / squeeze of huge_shapes() through the model; resize / cycle_take FROM sources of 4 100..140 000 elements (`hchain`) against the harness-native reference out[i] = in[i mod len], which is validated against the model on every smaller resize / cycle_take / reshape / ravel chain of the run (`audit` demands >= 1000 validations); hidden state: `aba` = two chains on a fresh thread A B A, then on another fresh thread B A B, over shape pairs colliding under weak polynomial hashes (multipliers 31,33,37,131,257), equal counts, and a refused call followed by a valid one; for a third of the chain lines the previous line is re-executed and must repeat its answer. PART 3: every line also on 12-, 3-, 32-byte (not Copy) tuples and one of nine further element sizes; constant / ==-but-not-identical value mixtures; isize-range and wrapping axis / shape arguments; giant iota arrays of 2^20..2.2e6 elements (and create on them) judged in place by the native plan, which is validated against the model on every chain line. ROUND 5: u8 arrays above 2^24 elements (up to 2^25+7): resize / cycle_take for (count, source length) pairs searched with the f32 ceil / floor / remainder idioms, rank 2-4 targets, ravel / reshape (accepted and refused-after-rounding) / atleast / expand / squeeze / create; axis lengths 2^24+1 .. 2^64-1 on empty arrays through the model; resize / cycle_take targets related to the source (same, reversed, multiples, divisors, +-1); sources that look constant / periodic or whose elements only print alike (NaN payloads in f64 / f32 / Tuple2<f64,i32>, print-alike Tuple2<String,String> and List<String> images on every line). non-trivial = >=2 elements and a non-empty chain" });
 }
